@@ -110,10 +110,12 @@ def run_concrete_history(chk: Check, prog: Program) -> None:
     S = Summaries(prog)
     pcls = prog.cls("ExpressionParser")
     m_parse = prog.func("parser", "ExpressionParser.parse")
-    texts = ["x", "y", "x = y", "x + 1", "x + 1 = y", "y = x + 1", "2x", "-x", "x+1=x+1"]
+    # ... and a text together with the printed form of its tree, where that form reads back as a different (equal-valued)
+    # tree: "-xy" is -(x * y) and prints "-x * y", which reads as (-x) * y
+    texts = ["x", "y", "x = y", "x + 1", "x + 1 = y", "y = x + 1", "2x", "-x", "x+1=x+1", "-xy", "-x * y"]
     seqs = [s_ for s_ in itertools.permutations(texts, 2)] + [(a, b, a) for a, b in itertools.permutations(texts, 2)]
     if chk.tier == "quick":
-        seqs = [s_ for s_ in seqs if "=" in "".join(s_)]
+        seqs = [s_ for s_ in seqs if "=" in "".join(s_) or "-xy" in s_]
     where = m_parse.where
 
     def audit(it, root_cid):
